@@ -371,7 +371,7 @@ class MotifScores(Harness):
     """get_motif_scores: one score per window lying inside its sequence, the sum of the matrix entries of the window's letters"""
     name = "motif_scores"
     functions = ("get_motif_scores", "PWM.calculate_scores/as_valid_encoded_array", "PWM.calculate_score (PositionWeightMatrix rolling window)")
-    bounds = {"quick": "window sizes 1-3 over ACGT, matrix entries (letter+1)*10^position (so that every letter/position pair is told apart); "
+    bounds = {"quick": "window sizes 1-3 (and 4, the square matrix, on two row patterns) over ACGT, matrix entries (letter+1)*10^position (so that every letter/position pair is told apart); "
                        "rows with lengths from {0, w-1, w, w+1} in 1-3 rows; every letter assignment",
               "thorough": "window sizes 1-4, more row patterns"}
     assumptions = ("matrix entries are small integers held as doubles: all sums are exact, no rounding is involved",)
@@ -382,6 +382,8 @@ class MotifScores(Harness):
             for lens in shapes_for(w, tier):
                 out.append(dict(enc="ACGTEncoding", w=w, lens=lens, api="get_motif_scores"))
             out.append(dict(enc="ACGTEncoding", w=w, lens=[w + 1, w], api="rolling_window"))
+        if tier == "quick":      # a motif as long as the alphabet is large (a SQUARE matrix: rows and columns cannot be told apart by shape)
+            out += [dict(enc="ACGTEncoding", w=4, lens=[4], api="get_motif_scores"), dict(enc="ACGTEncoding", w=4, lens=[5, 3], api="get_motif_scores")]
         return with_views(out)
 
     def inputs(self, skel, V):
